@@ -72,6 +72,11 @@ ATOMS: List[Atom] = [
     # Timestamp / Duration reachable ONLY through proto3-optional fields of the package
     Atom("optional_wkt_only", imports=("google/protobuf/timestamp.proto", "google/protobuf/duration.proto"),
          fields=("optional google.protobuf.Timestamp opt_ts", "optional google.protobuf.Duration opt_dur")),
+    # proto3-optional fields whose type is a wrapper: optional cardinality AND wraps on one field
+    Atom("optional_wrappers", imports=("google/protobuf/wrappers.proto",),
+         fields=tuple(f"optional google.protobuf.{w} ow_{w.lower()}" for w in
+                      ("DoubleValue", "Int32Value", "UInt64Value", "BoolValue", "StringValue", "BytesValue"))
+         + ("google.protobuf.Int32Value plain_w",)),
     # oneof NAMES that re-casing would alter, and two oneofs that differ only in spelling
     Atom("oneof_names", body=(
         "  oneof deliveryMethod {{ int32 dm_a = {n0}; string dm_b = {n1}; }}\n"
